@@ -364,11 +364,8 @@ def graphqlSchema (r : SchemaRun) : Outcome :=
 
 /-! ## trigger predicates of the known findings (decidable; twins of harness/c17.py `triggers`) -/
 
-/-- C17-F2: `fragments_module_name` is never validated -/
-def trigFragmentsModuleName (env : Env) (cfg : J) : Bool :=
-  match (getClientSettings env cfg).result with
-  | .ok s => !validName env s.fragmentsModuleName
-  | .error _ => false
+/- (C17-F2 `fragmentsModuleNameUnchecked` was repaired by /repo 0686a80: its trigger predicate is
+   gone, `fragments_module_name` is check 16 of `ClientSettings.__post_init__` now.) -/
 
 /-- C17-F7: the base client class check is a substring test -/
 def trigClassSubstring (env : Env) (cfg : J) : Bool :=
@@ -396,8 +393,7 @@ def trigNoGraphqlFiles (r : ClientRun) : Bool :=
   | .error _ => false
 
 def clientTriggers (r : ClientRun) : List String :=
-  (if trigFragmentsModuleName r.env r.cfg then ["fragmentsModuleNameUnchecked"] else [])
-  ++ (if trigInvalidSchemaAssumed r.schema r.plugins then ["invalidSchemaAssumedValid"] else [])
+  (if trigInvalidSchemaAssumed r.schema r.plugins then ["invalidSchemaAssumedValid"] else [])
   ++ (if trigSchemaBuildTypeError r.schema then ["schemaBuildTypeError"] else [])
   ++ (if trigFragmentGenError r.queries then ["fragmentGenErrorAfterWrites"] else [])
   ++ (if trigNoGraphqlFiles r then ["noGraphqlFiles"] else [])
